@@ -44,12 +44,18 @@ def producer(mode: str, obj: Any) -> Callable[[Any], Any]:
         return _reset
     if mode == "binpack_pair":  # instance + the advertised solution for the same key
         return lambda key: {"state": obj(key), "solution": obj.generate_solution(key)}
-    if mode == "connector_board":  # RandomWalkGenerator.generate_board(key) -> (solved, agents, grid)
-        def _board(key: Any) -> Any:
-            solved, agents, grid = obj.generate_board(key)
-            return {"solved_grid": solved, "agents": agents, "grid": grid}
+    if mode == "connector_pair":
+        # RandomWalkGenerator: the state of __call__(key) together with generate_board's
+        # (solved board, agents, training board) for the board key __call__ derives from `key`
+        # (second half of jax.random.split(key)); the validator verifies that the two agree before it
+        # uses the solved board as a witness, so the pairing is checked, not assumed.
+        import jax
 
-        return _board
+        def _pair(key: Any) -> Any:
+            solved, agents, grid = obj.generate_board(jax.random.split(key)[1])
+            return {"state": obj(key), "board": {"solved_grid": solved, "agents": agents, "grid": grid}}
+
+        return _pair
     raise KeyError(mode)
 
 
@@ -150,14 +156,15 @@ def compare_trees(a: Any, b: Any) -> Optional[str]:
 def spec(model: str, ctor: str, validator: str, sig: str, params: Optional[Dict[str, Any]] = None, *,
          mode: str = "call", random: bool = True, singleton: str = "", small: bool = False,
          extra_keys: Sequence[int] = (), k_quick: Optional[int] = None, k_thorough: Optional[int] = None,
-         quick: bool = True, family: str = "", prepare: str = "") -> Dict[str, Any]:
+         quick: bool = True, family: str = "", prepare: str = "", key_lo: int = 0,
+         thorough: bool = True) -> Dict[str, Any]:
     """model: display name; ctor: expression in catalog.namespace(); validator: name in VALIDATORS;
     sig: signature prefix '<family>.<GeneratorClass>'; random: generator is random by design (key
     dependence is required) unless `singleton` explains why its instance space has one element;
     small: report distinct instances / saturation; extra_keys: regression keys added in both tiers."""
     return dict(model=model, ctor=ctor, validator=validator, sig=sig, params=dict(params or {}), mode=mode,
                 random=random, singleton=singleton, small=small, extra_keys=list(extra_keys),
-                k_quick=k_quick, k_thorough=k_thorough, quick=quick,
+                k_quick=k_quick, k_thorough=k_thorough, quick=quick, thorough=thorough, key_lo=key_lo,
                 family=family or sig.split(".")[0], prepare=prepare)
 
 
@@ -205,7 +212,8 @@ def run_task(sp: Dict[str, Any], tier: str, seed: int) -> Dict[str, Any]:
         fn = producer(sp["mode"], obj)
         K = sp["k_quick"] if tier == "quick" else sp["k_thorough"]
         K = K or window(tier)
-        ids = list(range(K)) + [k for k in sp["extra_keys"] if k >= K]
+        lo = int(sp.get("key_lo", 0))
+        ids = list(range(lo, lo + K)) + [k for k in sp["extra_keys"] if not lo <= k < lo + K]
         n = len(ids)
         tree, fallback = batch_generate(fn, ids)
         if fallback is not None and n > 16:  # not jittable: the loop above already ran over all ids
@@ -245,7 +253,7 @@ def run_task(sp: Dict[str, Any], tier: str, seed: int) -> Dict[str, Any]:
                 ctx["count"]["key_dependence_checked"] += 1
                 if len(set(win)) <= 1:
                     viol.append(_violation(sp, "constant-function-of-key",
-                                           f"all {K} instances of the window PRNGKey(0..{K - 1}) are identical "
+                                           f"all {K} instances of the window PRNGKey({lo}..{lo + K - 1}) are identical "
                                            "(ignoring the PRNG key stored in the state)", 0,
                                            {"kind": "key-dependence", "window": K}))
         else:
@@ -253,8 +261,8 @@ def run_task(sp: Dict[str, Any], tier: str, seed: int) -> Dict[str, Any]:
             if len(set(win)) != 1:
                 facts["constant_generator_varies"] = len(set(win))
         # --- eager re-generation of a few keys through the plain un-jitted call
-        n_eager = 2 if tier == "quick" else 3
-        picks = sorted({ids[(seed * 7 + j * max(1, K // n_eager) + 1) % K] for j in range(n_eager)})
+        n_eager = (2 if tier == "quick" else 3) - (1 if t_gen > 6.0 else 0)  # costly compiles: one key fewer
+        picks = sorted({ids[(seed * 7 + j * max(1, K // max(1, n_eager)) + 1) % K] for j in range(n_eager)})
         validated = 0
         err = None
         for k in picks:
@@ -272,7 +280,7 @@ def run_task(sp: Dict[str, Any], tier: str, seed: int) -> Dict[str, Any]:
                     "instance_digest": dig[0].hex(), "validator": sp["validator"]}]
         res = dict(model=sp["model"], states=distinct, transitions=n + int(cnt.get("extra_evaluations", 0)),
                    validated=validated, samples=samples, violations=viol, vacuity=dict(cnt),
-                   exhaustive=True, window=K, regression_keys=[k for k in sp["extra_keys"]],
+                   exhaustive=True, window=K, window_start=lo, regression_keys=[k for k in sp["extra_keys"]],
                    generation_s=round(t_gen, 2), task_s=round(time.time() - t0, 2),
                    violating_instances={k: int(v) for k, v in n_by_sig.items()},
                    first_violating_key={k: int(v) for k, v in first_bad.items()}, **facts)
